@@ -1724,6 +1724,9 @@ class Quantity(metaclass=QuantityMeta):
         """self ** exp"""
         if not isinstance(exp, int):
             return NotImplemented
+        if exp == 1:
+            # `self.unit ** 1` would be rounded to the quantum (if any)
+            return self
         return self.amount ** exp * self.unit ** exp
 
     def __round__(self: Q, n_digits: int = 0) -> Q:
